@@ -329,6 +329,22 @@ fn run(ctx: &mut Ctx) {
             }
         }
     }
+    // other epochs (shim::EPOCH_VARIANTS): the ages shown in LC and in the one-digit age markers reach back
+    // across midnight / the year / the 32-bit time_t wrap and have sub-second parts
+    job += 1;
+    if ctx.mine(job) {
+        for (es, ens, _) in crate::shim::EPOCH_VARIANTS {
+            crate::shim::set_epoch(es, ens);
+            for letters in ["aAews", "e", ""] {
+                let sp = spellings(letters);
+                for (sname, s) in states.iter().filter(|(n, _)| n.contains("ages") || n.contains("lc")) {
+                    ctx.count("row-checked-under-other-epoch");
+                    check_state(ctx, letters, &sp[0], sname, s);
+                }
+            }
+            crate::shim::reset_epoch();
+        }
+    }
     // an over-wide row next to an ordinary one: the ordinary row must be rendered as if it were alone
     job += 1;
     if ctx.mine(job) {
